@@ -154,7 +154,7 @@ fn entry_chain(cx: &mut Ctx, present: bool, raw: bool, allow_d6: bool) -> Vec<St
                     7 => if raw { Step::RawOccInsertKey(cx.kid()) } else { Step::InsertE(cx.val()) },
                     8 => if raw { Step::RawInsert(cx.kid(), cx.val()) } else { Step::Key },
                     9 => { st = EK::Done; if raw { Step::RawOrInsert(cx.kid(), cx.val(), Some(cx.val())) } else { Step::OrInsert(cx.val(), Some(cx.val())) } }
-                    10 => { st = EK::Done; if raw { Step::RawOrInsertWith(cx.kid(), cx.val(), None) } else { Step::OrInsertWith(cx.val(), None) } }
+                    10 => { st = EK::Done; if raw { Step::RawOrInsertWith(cx.kid(), cx.val(), None) } else if cx.rng.chance(1, 2) { Step::OrInsertWith(0, Some(cx.val())) } else { Step::OrInsertWith(cx.val(), None) } }
                     11 => { st = EK::Done; Step::OccIntoMut(cx.val()) }
                     12 => { st = EK::Done; Step::OccRemove }
                     13 => { st = EK::Done; Step::OccRemoveEntry }
@@ -172,7 +172,7 @@ fn entry_chain(cx: &mut Ctx, present: bool, raw: bool, allow_d6: bool) -> Vec<St
                     1 => Step::AndModify(d),
                     2 => Step::AndReplace(cx.rng.chance(1, 2), d),
                     3 => { st = EK::Done; if raw { Step::RawOrInsert(cx.kid(), cx.val(), w) } else { Step::OrInsert(cx.val(), w) } }
-                    4 => { st = EK::Done; if raw { Step::RawOrInsertWith(cx.kid(), cx.val(), w) } else { Step::OrInsertWith(cx.val(), w) } }
+                    4 => { st = EK::Done; if raw { Step::RawOrInsertWith(cx.kid(), cx.val(), w) } else if cx.rng.chance(1, 2) { Step::OrInsertWith(0, w) } else { Step::OrInsertWith(cx.val(), w) } }
                     5 => { if raw { st = EK::Occ(false); Step::RawInsert(cx.kid(), cx.val()) } else { st = EK::Occ(false); Step::InsertE(cx.val()) } }
                     6 => { st = EK::Done; if raw { Step::RawVacInsert(cx.rng.below(3), cx.kid(), cx.val(), w) } else { Step::VacInsert(cx.val(), w) } }
                     _ => { st = EK::Done; if raw { Step::RawVacInsert(cx.rng.below(3), cx.kid(), cx.val(), w) } else if cx.rng.chance(1, 2) { Step::OrInsertWithKey(cx.val(), w) } else { Step::VacIntoKey } }
